@@ -23,7 +23,7 @@ ASSUMPTIONS = [
     "query (the library documents that Davie/Foster areas are not consistent across independent splits)",
 ]
 REQUIRED_COUNTERS = ["ride_c03_additivity_triples", "ride_c03_antisymmetry", "triples", "multi_piece_queries", "evictions", "refinements", "A_chen_checked",
-                     "wrapper_interval", "wrapper_path", "wrapper_tree", "wrapper_reverse", "zero_len", "reverse_vs_base_checks"]
+                     "wrapper_interval", "wrapper_path", "wrapper_tree", "wrapper_reverse", "zero_len", "reverse_vs_base_checks", "double_reversal_checks"]
 THRESHOLDS = {"f64": 1e-10, "f32": 5e-4}
 CASE_TIMEOUT = 900
 
@@ -122,6 +122,14 @@ def run_case(case):
                         check("reverse_A_vs_base", A, -outb[-1], f"s={s!r} t={t!r} cfg={cfg}")
                     if U is not None:
                         check("reverse_U_vs_base", U, (res(t) - res(s)) * Wb - outb[1], f"s={s!r} t={t!r} cfg={cfg}")
+                    # a reversal of the reversed view is the original path again
+                    import torchsde as _ts
+                    outrr = _ts.ReverseBrownian(bm)(s, t, **fl)
+                    outrr = (outrr,) if torch.is_tensor(outrr) else tuple(outrr)
+                    outb_t = (outb,) if torch.is_tensor(outb) else tuple(outb)
+                    bump("double_reversal_checks")
+                    for x_, y_ in zip(outrr, outb_t):
+                        check("double_reversal_vs_base", x_, y_, f"s={s!r} t={t!r} cfg={cfg}")
                     W_again = _query(bm, cfg, s, t, fl)[2 if A is not None else 0]
                     check("reverse_requery_after_base_query", W_again, A if A is not None else W, f"s={s!r} t={t!r} cfg={cfg}")
                 W1, U1, A1 = _query(bm, cfg, s, u, fl, rng)
